@@ -187,6 +187,9 @@ pub fn identity_sweep(
                     }
                 }
             }
+            if m == 5 || m == 33 {
+                ctx.sample(json!({"variant": var.name, "m": m, "block_ids": block, "shapes": "all (|A\\B|,|B\\A|,|A∩B|) with union <= umax", "subset_triples_enumerated": cfg_triples, "integer_identity_holds_at_every_position": cfg_ok}));
+            }
             details.push(json!({"variant": var.name, "m": m, "subset_triples": cfg_triples, "identity_holds": cfg_ok}));
         }
     }
